@@ -5,7 +5,7 @@ CHECK = dict(
     technique='complete enumeration of fault points (every truncation length, every k-th allocation failure, every stream failure offset, every position of a library-detected mid-operation error) executed on the real archives under worker supervision',
     level_text='For corpus documents in all four archives (MsgPack additionally: 128 documents [padding, 300, 2.5, X] whose last value X in {u32, i64, f64, u64} is slid over every alignment of the 16-byte and the 256-byte refill boundary (thorough: every padding 0..271); the check runs with both reader chunk sizes), memory and stream: every strict prefix of the input; "the k-th operator new fails" for every k of the fault-free run (pugixml through its allocator seam) for '
                'load and save; every byte offset at which the input streambuf starts to return EOF or to throw and at which the output streambuf starts to fail or to throw; CSV/array row-width mismatch at every row, '
-               'unregistered enum at every element (save) and unknown enum text at every row (load), fixed std::array size mismatch for every element count, validation cap 0..3 reached inside nested scopes for every '
+               'unregistered enum at every element (save) and unknown enum text at every row (load), fixed std::array size mismatch for every element count, the k-th Serialize() call of a user type throwing (3 exception types, every k, save and load of a nested class / vector / map structure), validation cap 0..3 reached inside nested scopes for every '
                'subset of missing required fields. Errors raised inside an element of 11 std adapter kinds (tuple, pair, array, vector, list, deque, set, map, optional, vector<tuple>, vector<vector>): number overflow, ill-formed UTF-8 into a wide string, input ending inside the element (every prefix), MsgPack and JSON, memory and stream, mismatched-types policy ThrowError and Skip - each must reach the caller. Each faulted execution runs in a supervised worker: terminate/abort/signal/hang become outcomes; an allocation ledger detects leaks; a fault-free follow-up must succeed.',
     level_note='Trusted: replacement operator new/delete ledger (engine/env.hpp), harness streambufs, worker supervision. malloc failures inside RapidJSON (CrtAllocator, unchecked malloc in third-party code) are not injected. '
                'Text formats may accept a truncated document that is still complete for the parser; MessagePack is prefix-free so every strict prefix must be rejected.',
